@@ -15,8 +15,8 @@ Contained(b, a, env) == \A p \in Lat \X Lat : In(b, QAt(env, p[1], p[2])) => In(
 \* is the measure of e fixed by the property at this parameter row?
 RECURSIVE VolDefined(_, _)
 VolDefined(e, env) ==
-  CASE e.k \in {"interval", "point", "par", "tri", "circle", "sphere", "bdl", "bdr"} -> TRUE
-    [] e.k = "bd" -> e.d.k \in {"interval", "par", "tri", "circle", "sphere"}
+  CASE e.k \in {"interval", "point", "par", "tri", "circle", "sphere", "poly", "mesh", "bdl", "bdr"} -> TRUE
+    [] e.k = "bd" -> e.d.k \in {"interval", "par", "tri", "circle", "sphere", "poly", "mesh"}
                      \/ (e.d.k \in {"trans", "rot"} /\ VolDefined([k |-> "bd", d |-> e.d.d], env))
     [] e.k \in {"trans", "rot"} -> VolDefined(e.d, env)
     [] e.k = "prod" -> FreeVars(e.l) \cap SpaceVars(e.r) = {} /\ VolDefined(e.l, env) /\ VolDefined(e.r, env)
@@ -24,7 +24,7 @@ VolDefined(e, env) ==
     [] e.k = "cut" -> "contained" \in DOMAIN e /\ VolDefined(e.l, env) /\ VolDefined(e.r, env) /\ Contained(e.r, e.l, env)
     [] OTHER -> FALSE
 \* density counts: n = ceil(d * vol) for the shapes sampled without rejection
-Exact(e) == e.k \in {"interval", "circle", "par", "sphere", "point"} \/ (e.k = "bd" /\ e.d.k \in {"interval", "circle", "par", "tri", "sphere"})
+Exact(e) == e.k \in {"interval", "circle", "par", "sphere", "point", "poly", "mesh"} \/ (e.k = "bd" /\ e.d.k \in {"interval", "circle", "par", "tri", "sphere", "poly", "mesh"})
 \* translated / rotated non-rejection shapes
 RECURSIVE ExactT(_)
 ExactT(e) == Exact(e) \/ (e.k \in {"trans", "rot"} /\ ExactT(e.d))
